@@ -53,9 +53,42 @@ def _perturbation():
                      st.sampled_from(["", "glibc.malloc.tcache_count=0", "glibc.malloc.mmap_threshold=4096"]))
 
 
+class _TmplLib:
+    """hand-shaped library: same-named nested classes / enums in several outer classes of a header that is only
+    reached through -I, used by signatures of the command-line header (external imports, name ties)"""
+
+    def __init__(self, t):
+        n = t["n"]
+        inner = ["Cursor", "Iter", "Mode"][t["inner"] % 3]
+        ext = ["#ifndef EXT_H", "#define EXT_H", "#include <verif_prelude.h>"]
+        for i in range(n):
+            ext.append("class Outer%d {\nPUBLISHED:\n  class %s {\n  PUBLISHED:\n    int get_%d() const;\n  };\n  enum Kind { k%d_a, k%d_b };\n  int m%d();\n};" % (i, inner, i, i, i, i))
+        ext.append("#endif")
+        main = ["#ifndef L_H", "#define L_H", "#include <verif_prelude.h>", '#include "ext.h"', "class User {", "PUBLISHED:", "  User();"]
+        order = list(range(n))
+        if t["rev"]:
+            order.reverse()
+        for i in order:
+            main.append("  void use_%d(Outer%d::%s *c, Outer%d::Kind k = Outer%d::k%d_a);" % (i, i, inner, i, i, i))
+            main.append("  Outer%d::%s *make_%d(const Outer%d &o);" % (i, inner, i, i))
+            if t["ovl"]:
+                main.append("  void use_any(Outer%d::%s *c);" % (i, inner))
+        main += ["};", "#endif"]
+        self.files = {"l.h": "\n".join(main) + "\n", "incdir/ext.h": "\n".join(ext) + "\n"}
+        self.main = "l.h"
+        self.cmd_headers = ["l.h"]
+        self.search = ["-Iincdir"]
+        self.entities = [{"kind": "method", "ovs": [{"params": [type("P", (), {"kind": "obj"})()]} for _ in range(n)]}] if t["ovl"] else []
+
+
+def _tmpl():
+    return st.builds(lambda n, inner, rev, ovl: {"tmpl": {"n": n, "inner": inner, "rev": rev, "ovl": ovl}}, st.integers(2, 6), st.integers(0, 2),
+                     st.booleans(), st.booleans())
+
+
 def _strategy(ctx):
     return st.builds(lambda raw, backend, perts, mod: {"raw": raw, "backend": backend, "perts": perts, "module": mod},
-                     st.one_of(_biased_raw(), _biased_raw(), hgen.raw_libraries()),
+                     st.one_of(_biased_raw(), _biased_raw(), hgen.raw_libraries(), _tmpl()),
                      st.sampled_from(["-python-native", "-python-native", "-c", "-python"]),
                      st.lists(_perturbation(), min_size=ctx.pick(3, 8), max_size=ctx.pick(3, 8)), st.booleans())
 
@@ -90,7 +123,7 @@ def _run_all(d, lib, backend, env_extra, prefix, with_module, epoch=True):
 
 
 def judge(case, ctx):
-    lib = hgen.build(case["raw"])
+    lib = _TmplLib(case["raw"]["tmpl"]) if "tmpl" in case["raw"] else hgen.build(case["raw"])
     shim = aux.ensure_so("shufflealloc")
     locdir = aux.ensure_locale()
     classes = ["backend." + case["backend"]]
